@@ -1,6 +1,6 @@
 import CanvasProofs.Lemmas.C17Term
 import CanvasProofs.Lemmas.C17Sums
-import CanvasProofs.Lemmas.C17Opt5
+import CanvasProofs.Lemmas.C17Opt10
 import Mathlib.Tactic.IntervalCases
 
 /-! # C17 — `text.Linebreak` (Knuth–Plass line breaking)
@@ -54,40 +54,43 @@ theorem ends_at_final (hrefl : ∀ a : α, (a == a) = true) (P : Params α) (ite
     simp only [fixNonRoot, List.getLast?_reverse, List.head?_cons, Option.map_some]
     rw [clampRatio_pos, hpos]
 
-/-- Full statement: every forced break is among the returned breakpoints. It does **not** hold for
-the unchanged code (see `forced_included_partial` and the known finding
-`forced-break-skipped-by-overflow-fallback`). -/
-def forced_included_statement : Prop :=
-  ∀ (α : Type) [Add α] [Sub α] [Mul α] [Div α] [Neg α] [LT α] [LE α] [BEq α] [DecidableLT α] [DecidableLE α]
-    [NatCast α] (hrefl : ∀ a : α, (a == a) = true) (P : Params α) (items : List (Item α)) (lineW : α)
-    (loose : Int) (breaks : List (ND α)) (fit : Bool) (m : Nat), items.length = m + 1 →
-    forcedAt P items m = true → legalAt P items m = true →
-    linebreak P items lineW loose = Outcome.ok breaks fit →
-    ∀ f, forcedAt P items f = true → legalAt P items f = true → f ∈ breaks.map (·.pos)
-
-/-- When no overflow is reported, every forced break is among the returned breakpoints. -/
-theorem forced_included_partial (hrefl : ∀ a : α, (a == a) = true) (P : Params α) (items : List (Item α)) (lineW : α)
-    (loose : Int) (breaks : List (ND α)) (m : Nat) (hlen : items.length = m + 1)
+/-- Every forced break is among the returned breakpoints — also when overflow is reported (the
+overflow fallback only picks parents at or after the last forced break). -/
+theorem forced_included (hrefl : ∀ a : α, (a == a) = true) (P : Params α) (items : List (Item α)) (lineW : α)
+    (loose : Int) (breaks : List (ND α)) (fit : Bool) (m : Nat) (hlen : items.length = m + 1)
     (hfo : forcedAt P items m = true) (hle : legalAt P items m = true)
-    (h : linebreak P items lineW loose = Outcome.ok breaks true) :
+    (h : linebreak P items lineW loose = Outcome.ok breaks fit) :
     ∀ f, forcedAt P items f = true → legalAt P items f = true → f ∈ breaks.map (·.pos) := by
-  obtain ⟨tol, ovf0, lb, nb, _, hI, hnb, hb, hfit, _, _, _⟩ := run_chain hrefl P items lineW loose breaks true m hlen hfo hle h
+  obtain ⟨tol, ovf0, lb, nb, _, hI, hnb, hb, _, _, _, _⟩ := run_chain hrefl P items lineW loose breaks fit m hlen hfo hle h
   intro f hf hl
-  have hov : lb.ovf = false := by
-    cases ho : lb.ovf with
-    | false => rfl
-    | true => rw [ho] at hfit; cases hfit
-  have := hI.forced hov nb hnb f (legalAt_lt hl) hf hl
+  have := hI.forced nb hnb f (legalAt_lt hl) hf hl
   subst hb
   rw [List.map_reverse, fixNonRoot_pos]
   exact List.mem_reverse.mpr this
 
-/-- When no overflow is reported, every returned breakpoint reports the measures of its line:
+/-- Every returned breakpoint — with or without overflow — reports the measures of its line
+(`LinesAnyr`, breakpoints latest first): `Width` is the running width at the break (plus the width of
+a penalty) minus the sums after the previous break; and either (`LineOK`) the line's adjustment
+ratio `r`, computed from the same sums, lies in `[-1, tol]` for the tolerance `tol` of the pass that
+completed and `Ratio` is `r` (0 if `r > Tolerance` after a relaxation), or (`LineFb`) the breakpoint
+was made by the overflow fallback and reports `Ratio` 0 and class 1. -/
+theorem reported_widths_ratios (hrefl : ∀ a : α, (a == a) = true) (P : Params α) (items : List (Item α))
+    (lineW : α) (loose : Int) (breaks : List (ND α)) (fit : Bool) (m : Nat) (hlen : items.length = m + 1)
+    (hfo : forcedAt P items m = true) (hle : legalAt P items m = true)
+    (h : linebreak P items lineW loose = Outcome.ok breaks fit) :
+    ∃ tol, LinesAnyr P items lineW tol breaks.reverse ∧ WidthsOKr P items breaks.reverse := by
+  obtain ⟨tol, ovf0, lb, nb, _, hI, hnb, hb, _, _, _, _⟩ := run_chain hrefl P items lineW loose breaks fit m hlen hfo hle h
+  have hch := (hI.act nb hnb).1
+  subst hb
+  rw [List.reverse_reverse]
+  exact ⟨tol, chain_lines_any hch, linesAny_widths _ (chain_lines_any hch)⟩
+
+/-- When no overflow is reported, no returned breakpoint is a fallback breakpoint: every one reports the measures of its line:
 `Width` is the running width at the break (plus the width of a penalty) minus the sums after the
 previous break, the line's adjustment ratio `r` computed from the same sums lies in `[-1, tol]` for
 the tolerance `tol` of the pass that completed, and `Ratio` is `r` (or 0 if `r > Tolerance` after
 a relaxation). `LinesOKr` lists the breakpoints latest first. -/
-theorem reported_widths_ratios_partial (hrefl : ∀ a : α, (a == a) = true) (P : Params α) (items : List (Item α))
+theorem reported_widths_ratios_ok (hrefl : ∀ a : α, (a == a) = true) (P : Params α) (items : List (Item α))
     (lineW : α) (loose : Int) (breaks : List (ND α)) (m : Nat) (hlen : items.length = m + 1)
     (hfo : forcedAt P items m = true) (hle : legalAt P items m = true)
     (h : linebreak P items lineW loose = Outcome.ok breaks true) :
@@ -175,27 +178,28 @@ theorem reported_width_is_line_sum (P : Params K) (items : List (Item K)) (lineW
   rw [hw]; exact width_eq_lineNat P items prev d.pos hs
 
 /-- Sufficient well-formedness for optimality (`Canvas.C17.WF`): positive `Infinity` and line width,
-non-negative `DemeritsFitness`; non-negative widths, glue with `0 ≤ shrink ≤ width` and non-negative
-stretch, penalties without width (known finding `nonmonotone-min-length`); a box between any two
-legal breakpoints (known finding `break-before-first-box`, see `suboptimal_witness`); an unflagged
-first item (the start node reads `items[0].Flagged`); no glue as last item. -/
+non-negative `DemeritsFitness`; non-negative widths, glue with `0 ≤ shrink ≤ width` (known finding
+`glue-shrink-exceeds-width`, see `feasible_missed_witness`) and non-negative stretch; a box between
+any two legal breakpoints; an unflagged first item (the start node reads `items[0].Flagged`); no
+glue as last item. Penalties may have width (hyphens). -/
 abbrev WellFormed (P : Params K) (items : List (Item K)) (lineW : K) : Prop := WF P items lineW
 
-/-- Full statement of optimality against the L3 specification (not proved): for well-formed
-paragraphs and looseness 0, whenever the exhaustive specification `best` finds a breaking within
-`[-1, Tolerance]`, `linebreak` reports no overflow and returns a breaking whose total demerits are
-that optimum. Proved so far: `optimal_over_breakings` (the result costs no more than ANY legal
-feasible breaking, lines measured by running sums) and `optimal_partial` (the result's demerits are
-the exact cost of the returned breaking). Missing for this statement: `bestFrom` = minimum of
-`seqCost` over all sequences (needs the equality of the direct-sum `lineRatio` with `adjRatio` on
-running sums for stretch/shrink as `reported_width_is_line_sum` does for the width), and
-`Fitness = fitClass Ratio` for returned nodes (so that `chainCost` is a `seqCost`). -/
-def optimal_statement : Prop :=
-  ∀ (K : Type) [Field K] [LinearOrder K] [IsStrictOrderedRing K] (P : Params K) (items : List (Item K))
-    (lineW : K) (m : Nat) (dOpt : K), WF P items lineW → items.length = m + 1 →
-    forcedAt P items m = true → legalAt P items m = true → best P items lineW = some dOpt →
+/-- **Optimality** (`C17.optimal` of the design), against the L3 specification: for a well-formed
+paragraph (`WF`, with `Tolerance < Infinity`) and looseness 0, whenever the exhaustive specification
+`best` — the least total demerits over ALL legal breakings whose lines, measured by direct summation
+over their items, have their ratio in `[-1, Tolerance]` — finds a breaking with demerits `dOpt`,
+`linebreak` reports no overflow, needs no relaxation, and the total demerits of the breaking it returns
+are exactly `dOpt`. Ingredients: DP completeness (`optimal_over_breakings`: deactivation, fitness-class
+pruning and line grouping lose nothing), `bestFrom` = minimum of `seqCost` over all breakings
+(`bestFrom_attained`, `bestFrom_le`), equality of the direct-sum and running-sum measures
+(`step_equiv`), and `Fitness = fitClass Ratio` with exact cost accounting for the returned chain. -/
+theorem optimal (P : Params K) (items : List (Item K)) (lineW : K) (hwf : WF P items lineW)
+    (htol : P.tolerance < P.infinity) (m : Nat) (hlen : items.length = m + 1)
+    (hfo : forcedAt P items m = true) (hle : legalAt P items m = true) (dOpt : K)
+    (hbest : best P items lineW = some dOpt) :
     ∃ breaks, linebreak P items lineW 0 = Outcome.ok breaks true ∧
-      (breaks.getLast?).map (·.dem) = some dOpt
+      (breaks.getLast?).map (·.dem) = some dOpt :=
+  optimal_core P items lineW hwf htol m hlen hfo hle dOpt hbest
 
 /-- **DP completeness** (the hard half of optimality). For a well-formed paragraph and looseness 0:
 for EVERY breaking `seq` — strictly increasing legal breakpoints that skip no forced break and end at
@@ -211,42 +215,19 @@ theorem optimal_over_breakings (P : Params K) (items : List (Item K)) (lineW : K
     (hcost : seqCost P items lineW (some P.tolerance) none 1 0 seq = some d) :
     ∃ breaks dd, linebreak P items lineW 0 = Outcome.ok breaks true ∧
       (breaks.getLast?).map (·.dem) = some dd ∧ dd ≤ d := by
-  have hrefl : ∀ a : K, (a == a) = true := fun a => beq_self_eq_true a
-  obtain ⟨lbf, hp, hov, n, hn, hnd⟩ := passLoop_opt P items lineW hwf (some P.tolerance) items 0 (initLB false)
-    none 1 0 seq d rfl (Nat.zero_le _) (inv_init P items lineW _ false) (fun x _ => Nat.zero_le _) hpw hns
-    (fun a ha => by cases ha) (fun he => by rw [he] at hlast; cases hlast)
-    (fun x hx => by rw [hlast] at hx; cases hx; omega) hcost
-    ⟨root, by simp [initLB], ⟨rfl, hwf.fl⟩, Or.inl ⟨rfl, by show (k 0 : K) ≤ 0; rw [k0]⟩⟩
-  have hp : passLoop P items lineW (some P.tolerance) 0 none items (initLB false) = PassRes.done lbf := hp
-  have hI : Inv P items lineW (some P.tolerance) items.length lbf :=
-    passLoop_inv hrefl P items lineW _ items 0 (initLB false) lbf rfl (Nat.zero_le _) (inv_init P items lineW _ false) hp
-  have hovf : lbf.ovf = false := hov
-  cases hf : finish P items.length 0 lbf with
-  | panic => simp [finish] at hf; split at hf <;> cases hf
-  | fuelOut => simp [finish] at hf; split at hf <;> cases hf
-  | ok breaks fit =>
-    obtain ⟨nb, hnb, hb, hfit, _, hanc, h0⟩ := finish_spec P items lineW _ 0 lbf m hlen hfo hle hI breaks fit hf
-    have hmin := (chooseBest_none_min lbf.act nb (h0 rfl)).2 n hn
-    refine ⟨breaks, nb.d.dem, ?_, ?_, le_trans hmin hnd⟩
-    · unfold linebreak fuelFor
-      simp only [linebreakFuel, hp, hf]
-      rw [hfit, hovf]; rfl
-    · subst hb
-      cases ha : nb.anc with
-      | nil => exact absurd ha hanc
-      | cons p rest =>
-        simp only [fixNonRoot, List.getLast?_reverse, List.head?_cons, Option.map_some]
-        congr 1
-        unfold clampRatio; split <;> rfl
+  obtain ⟨lbf, nb, breaks, _, _, _, _, hb, hrun, _, hanc, hle'⟩ :=
+    opt_core P items lineW hwf m hlen hfo hle seq d hpw hns hlast hcost
+  exact ⟨breaks, nb.d.dem, hrun, by rw [hb]; exact last_dem P nb hanc, hle'⟩
 
-/-- What is proved towards optimality (looseness 0, no overflow reported): the returned breaking is
+/-- Cost accounting and local minimality (looseness 0, no overflow reported; no well-formedness
+needed): the returned breaking is
 the parent walk of a node `nb` of the final active list such that
 (a) every node of that list — every candidate that survived the pruning — ends a well-formed chain
     of legal breaks whose lines all have their ratio in `[-1, tol]` and whose recorded total
     demerits are exactly the sum of the line demerits along the chain (`chainCost`), and
 (b) `nb` has the least total demerits among them.
 So the result is optimal among the breakings that survive deactivation and the fitness-class
-pruning; that no better breaking is pruned (`optimal_statement`) is tested exhaustively, not proved. -/
+pruning — for arbitrary items; for well-formed paragraphs `optimal` shows nothing better is lost. -/
 theorem optimal_partial (P : Params K) (items : List (Item K)) (lineW : K) (breaks : List (ND K)) (m : Nat)
     (hlen : items.length = m + 1) (hfo : forcedAt P items m = true) (hle : legalAt P items m = true)
     (h : linebreak P items lineW 0 = Outcome.ok breaks true) :
@@ -289,24 +270,6 @@ def obs : Outcome Rat → Option (List Nat × List Rat × Bool)
   | Outcome.ok brs fit => some (brs.map (·.pos), brs.map (·.width), fit)
   | _ => none
 
-/-- "word\n\nlongword" in a line of width 10 -/
-def paraEmptyLine : List (Item Rat) := [bx 5] ++ nl ++ nl ++ [bx 20] ++ nl
-
-/-- Defect witness: the forced break at 4 (the empty line) is not returned. -/
-theorem forced_skipped_witness : ¬ forced_included_statement := by
-  intro h
-  have hrun : obs (linebreak Pq paraEmptyLine 10 0) = some ([2, 7], [5, 20], false) := by decide +kernel
-  cases hl : linebreak Pq paraEmptyLine 10 0 with
-  | panic => rw [hl] at hrun; cases hrun
-  | fuelOut => rw [hl] at hrun; cases hrun
-  | ok brs fit =>
-    rw [hl] at hrun
-    simp only [obs, Option.some.injEq, Prod.mk.injEq] at hrun
-    have := h Rat (fun a => by simp) Pq paraEmptyLine 10 0 brs fit 7 (by decide) (by decide +kernel)
-      (by decide +kernel) hl 4 (by decide +kernel) (by decide +kernel)
-    rw [hrun.1] at this
-    exact absurd this (by decide)
-
 /-- Out-of-range witness: a paragraph that ends in glue after a box makes the code read `items[b+1]`. -/
 theorem panic_witness : linebreak Pq [bx 1, gl 1 1 1] 10 0 = Outcome.panic := by
   have h : (match linebreak Pq [bx 1, gl 1 1 1] 10 0 with | Outcome.panic => true | _ => false) = true := by
@@ -316,100 +279,26 @@ theorem panic_witness : linebreak Pq [bx 1, gl 1 1 1] 10 0 = Outcome.panic := by
   | fuelOut => rw [hl] at h; cases h
   | ok b f => rw [hl] at h; cases h
 
-/-- Full statement of feasibility: whenever some legal breaking keeps every line within
-`[-1, Tolerance]` (the exhaustive specification `best` finds one), no overflow is reported and the
-first pass completes. It does **not** hold for the unchanged code. -/
+/-- Feasibility without well-formedness: whenever some legal breaking keeps every line within
+`[-1, Tolerance]` (the exhaustive specification `best` finds one), no overflow is reported. It does
+**not** hold for arbitrary items (known finding `glue-shrink-exceeds-width`); for well-formed
+paragraphs it is `optimal_over_breakings`. -/
 def feasible_statement : Prop :=
   ∀ (P : Params Rat) (items : List (Item Rat)) (lineW : Rat) (m : Nat), items.length = m + 1 →
     forcedAt P items m = true → legalAt P items m = true → (best P items lineW).isSome = true →
-    ∃ breaks lb, linebreak P items lineW 0 = Outcome.ok breaks true ∧
-      passLoop P items lineW (some P.tolerance) 0 none items (initLB false) = PassRes.done lb
+    ∃ breaks, linebreak P items lineW 0 = Outcome.ok breaks true
 
-/-- Defect witness (`nonmonotone-penalty-width`): "9 + hyphen(2) | 1" in a line of width 10.5 — the
-single line 9+1 fits, but the node is deactivated at the hyphen and overflow is reported. -/
+/-- Defect witness (`glue-shrink-exceeds-width`): "11 |1 ~1" in a line of width 10, where the second
+glue shrinks by 5 — the single line (natural width 14, shrink 5) fits, but the start node is
+deactivated at the first glue (11 > 10, no shrink yet) and overflow is reported. -/
 theorem feasible_missed_witness : ¬ feasible_statement := by
   intro h
-  obtain ⟨breaks, lb, h1, _⟩ := h Pq ([bx 9, pn 2 50 true, bx 1] ++ nl) (21 / 2) 4 (by decide) (by decide +kernel)
+  obtain ⟨breaks, h1⟩ := h Pq ([bx 11, gl 0 0 0, bx 1, gl 1 0 5, bx 1] ++ nl) 10 6 (by decide) (by decide +kernel)
     (by decide +kernel) (by decide +kernel)
-  have hrun : obs (linebreak Pq ([bx 9, pn 2 50 true, bx 1] ++ nl) (21 / 2) 0) = some ([1, 4], [9, 1], false) := by
+  have hrun : obs (linebreak Pq ([bx 11, gl 0 0 0, bx 1, gl 1 0 5, bx 1] ++ nl) 10 0) = some ([1, 6], [11, 3], false) := by
     decide +kernel
   rw [h1] at hrun
   simp [obs] at hrun
-
-/-- Full statement for the reported measures (also when overflow is reported). It does **not** hold
-for the unchanged code: see `reported_widths_ratios_partial` and the next witness. -/
-def reported_widths_ratios_statement : Prop :=
-  ∀ (P : Params Rat) (items : List (Item Rat)) (lineW : Rat) (breaks : List (ND Rat)) (fit : Bool) (m : Nat),
-    items.length = m + 1 → forcedAt P items m = true → legalAt P items m = true →
-    linebreak P items lineW 0 = Outcome.ok breaks fit →
-    ∀ d, d ∈ breaks.head? → d.width = widthAt items d.pos
-
-/-- Defect witness: the first line of "20 + hyphen(1) | 3" in width 10 ends at the hyphen and is
-reported with Width 20 instead of 21 (overflow fallback builds the break without the penalty width). -/
-theorem reported_width_overflow_witness : ¬ reported_widths_ratios_statement := by
-  intro h
-  have hrun : obs (linebreak Pq ([bx 20, pn 1 50 true, bx 3] ++ nl) 10 0) = some ([1, 4], [20, 3], false) := by
-    decide +kernel
-  cases hl : linebreak Pq ([bx 20, pn 1 50 true, bx 3] ++ nl) 10 0 with
-  | panic => rw [hl] at hrun; cases hrun
-  | fuelOut => rw [hl] at hrun; cases hrun
-  | ok brs fit =>
-    rw [hl] at hrun
-    simp only [obs, Option.some.injEq, Prod.mk.injEq] at hrun
-    have h2 := h Pq ([bx 20, pn 1 50 true, bx 3] ++ nl) 10 brs fit 4 (by decide) (by decide +kernel)
-      (by decide +kernel) hl
-    cases brs with
-    | nil => simp at hrun
-    | cons d rest =>
-      have hw := h2 d (by simp)
-      simp only [List.map_cons, List.cons.injEq] at hrun
-      rw [hrun.1.1, hrun.2.1.1] at hw
-      revert hw
-      decide +kernel
-
-/-- Optimality without any well-formedness assumption on the items. It does **not** hold. -/
-def optimal_unrestricted_statement : Prop :=
-  ∀ (P : Params Rat) (items : List (Item Rat)) (lineW : Rat) (m : Nat) (dOpt : Rat) (breaks : List (ND Rat)) (fit : Bool),
-    items.length = m + 1 → forcedAt P items m = true → legalAt P items m = true →
-    best P items lineW = some dOpt → linebreak P items lineW 0 = Outcome.ok breaks fit →
-    ∀ d, d ∈ breaks.getLast? → d.dem ≤ dOpt
-
-/-- last reported total demerits and the optimum of the exhaustive specification -/
-def obsDem (P : Params Rat) (items : List (Item Rat)) (lineW : Rat) : Option (List Nat × Rat × Option Rat) :=
-  match linebreak P items lineW 0 with
-  | Outcome.ok brs _ => some (brs.map (·.pos), (brs.getLast?.map (·.dem)).getD 0, best P items lineW)
-  | _ => none
-
-/-- "5 1|-50 |+500 3": two penalties with only glue between them -/
-def paraTwoPenalties : List (Item Rat) :=
-  [bx 5, gl 1 5 0, bx 1, pn 0 (-50) false, gl 1 5 0, pn 0 500 false, gl 1 5 0, bx 3] ++ nl
-
-/-- Defect witness (`break-before-first-box`): the node at the first penalty is deactivated at the
-second one by a ratio computed from negative sums; the returned breaking [5, 9] costs more than the
-optimum of the exhaustive specification (the legal feasible breaking [3, 9]). -/
-theorem suboptimal_witness : ¬ optimal_unrestricted_statement := by
-  intro h
-  have hw : (match linebreak Pq paraTwoPenalties 10 0, best Pq paraTwoPenalties 10 with
-      | Outcome.ok brs _, some dOpt =>
-        (match brs.getLast? with | some d => decide (dOpt < d.dem) | none => false)
-      | _, _ => false) = true := by decide +kernel
-  cases hl : linebreak Pq paraTwoPenalties 10 0 with
-  | panic => rw [hl] at hw; cases hw
-  | fuelOut => rw [hl] at hw; cases hw
-  | ok brs fit =>
-    cases hb : best Pq paraTwoPenalties 10 with
-    | none => rw [hl, hb] at hw; cases hw
-    | some dOpt =>
-      rw [hl, hb] at hw
-      simp only at hw
-      cases hg : brs.getLast? with
-      | none => rw [hg] at hw; cases hw
-      | some d =>
-        rw [hg] at hw
-        simp only [decide_eq_true_eq] at hw
-        have := h Pq paraTwoPenalties 10 9 dOpt brs fit (by decide) (by decide +kernel) (by decide +kernel) hb hl d
-          (by rw [hg]; simp)
-        exact absurd (lt_of_lt_of_le hw this) (lt_irrefl _)
 
 /-- non-vacuity: a justified paragraph over `Rat` satisfies the hypotheses of the theorems above
 (final forced legal break, successful run without overflow, first pass completes) -/
@@ -462,6 +351,10 @@ example : WF Pq paraJustified 8 := by
 example : (seqCost Pq paraJustified 8 (some Pq.tolerance) none 1 0 [3, 6]).isSome = true ∧
     [3, 6].Pairwise (· < ·) ∧ [3, 6].getLast? = some 6 := by
   refine ⟨by decide +kernel, by decide, rfl⟩
+
+/-- non-vacuity of `optimal`: the specification finds an optimum for this paragraph and `Tolerance < Infinity` -/
+example : (best Pq paraJustified 8).isSome = true ∧ Pq.tolerance < Pq.infinity := by
+  exact ⟨by decide +kernel, by decide +kernel⟩
 
 example : NoSkip Pq paraJustified none [3, 6] := by
   refine ⟨?_, ?_, True.intro⟩
